@@ -549,11 +549,16 @@ func recordConc(rec *recorder, rng *rand.Rand, trials int, repo string) int {
 				break
 			}
 		}
+		// (a model with tensors of a mebibyte: few Runs, they are long - what it is there for shows in every overlapping pair)
+		heavy := name == "large_constant_bias"
 		// a pool of inputs with their sequential baseline
 		nKeys := 6
 		pool := make([][]map[string][]float32, nKeys)
 		for k := range pool {
 			n := 1 + rng.Intn(3)
+			if heavy {
+				n = 1
+			}
 			pool[k] = make([]map[string][]float32, n)
 			for i := range pool[k] {
 				pool[k][i] = map[string][]float32{}
@@ -577,6 +582,9 @@ func recordConc(rec *recorder, rng *rand.Rand, trials int, repo string) int {
 				continue
 			}
 			if concMode == "hot" && G != 8 {
+				continue
+			}
+			if heavy && concMode != "hot" && G != 4 {
 				continue
 			}
 			var wg sync.WaitGroup
@@ -608,6 +616,9 @@ func recordConc(rec *recorder, rng *rand.Rand, trials int, repo string) int {
 					if concMode == "hot" {
 						runs = 10 * trials // small generated models: many short Runs, so that node executions really overlap
 					}
+					if heavy {
+						runs = 3
+					}
 					for seq := 1; seq <= runs; seq++ {
 						k := lr.Intn(nKeys)
 						// every goroutine builds its own input tensors
@@ -635,7 +646,11 @@ func recordConc(rec *recorder, rng *rand.Rand, trials int, repo string) int {
 		if concMode == "hot" {
 			// Runs that START at the same instant: four goroutines released together by closing a channel, round after round
 			// (a spin barrier: the goroutines leave it within nanoseconds of each other; bounded by a time budget per model)
-			deadline := time.Now().Add(time.Duration(200*trials) * time.Millisecond)
+			budget := time.Duration(200*trials) * time.Millisecond
+			if heavy && budget > 1500*time.Millisecond {
+				budget = 1500 * time.Millisecond
+			}
+			deadline := time.Now().Add(budget)
 			for round := 1; round <= 400*trials && time.Now().Before(deadline); round++ {
 				var ready atomic.Int32
 				var bw sync.WaitGroup
